@@ -142,6 +142,12 @@ def body(case, rec):
                         raise Violation(f"derived assembly of {w[0]}: {g[1][:6]} != run-length reference {w[1][:6]}")
                 raise Violation("derived assembly differs in scaffold count")
             # streaming it back
+            if len(case["pairs"]) and case["pairs"][0][0] % 3 == 0:
+                # the same index object served a stream with another gap character (soft-masked output) before
+                masked = must(fa.stream_bytes, fai, asm, 60, b"n", what="streaming the derived assembly with gap character n")
+                want_masked = b"".join(b">" + r["name"].encode() + b"\n" + ref.wrap(bytes(c if c in gen.ACGT.encode() else 110 for c in r["seq"]), 60) for r in recs)
+                if masked != want_masked:
+                    raise Violation(f"streaming with gap character 'n' differs: {masked[:80]!r} vs {want_masked[:80]!r}")
             streamed = must(fa.stream_bytes, fai, asm, what="streaming the derived assembly")
             good = gen.ACGT.encode()
             want = b"".join(b">" + r["name"].encode() + b"\n" + ref.wrap(bytes(c if c in good else 78 for c in r["seq"]), 60) for r in recs)
